@@ -179,6 +179,8 @@ func c20Passthrough(c *Ctx) {
 					root, _ := splitRoot(pathOf(st.Addr))
 					if root == r.Name() && pathOf(st.Addr) != "" {
 						stores++
+					} else if addrRootedAt(st.Addr, r) {
+						stores++ // through a pointer into the request kept in a local (q := &r.Question[0]; q.Name = …)
 					}
 				}
 			}
@@ -482,4 +484,55 @@ func c20SameMux(c *Ctx) {
 	}
 	c.Check(rule, fnName(start)+"|chain-links", okLinks && nlinks >= 4, start.Pos(), fmt.Sprintf("%d Next links; each points to the database handler or to a front handler placed before it; not understood: %v", nlinks, badLinks))
 	c.Floor(rule, 6)
+}
+
+// addrRootedAt: the address is reached from root by field / element selection and loads only, possibly through local
+// variables that hold such a pointer.
+func addrRootedAt(addr ssa.Value, root ssa.Value) bool {
+	seen := map[ssa.Value]bool{}
+	var walk func(v ssa.Value, depth int) bool
+	walk = func(v ssa.Value, depth int) bool {
+		if v == root {
+			return true
+		}
+		if depth > 16 || seen[v] {
+			return false
+		}
+		seen[v] = true
+		switch x := v.(type) {
+		case *ssa.FieldAddr:
+			return walk(x.X, depth+1)
+		case *ssa.IndexAddr:
+			return walk(x.X, depth+1)
+		case *ssa.Slice:
+			return walk(x.X, depth+1)
+		case *ssa.UnOp:
+			if x.Op == token.MUL {
+				return walk(x.X, depth+1)
+			}
+		case *ssa.Phi:
+			for _, e := range x.Edges {
+				if walk(e, depth+1) {
+					return true
+				}
+			}
+		case *ssa.Alloc:
+			// a local that holds a pointer / slice: what was stored into it
+			if x.Referrers() == nil {
+				return false
+			}
+			switch x.Type().(*types.Pointer).Elem().Underlying().(type) {
+			case *types.Pointer, *types.Slice:
+			default:
+				return false
+			}
+			for _, r := range *x.Referrers() {
+				if st, ok := r.(*ssa.Store); ok && st.Addr == x && walk(st.Val, depth+1) {
+					return true
+				}
+			}
+		}
+		return false
+	}
+	return walk(addr, 0)
 }
